@@ -130,3 +130,30 @@ def callOpt? {α β : Type} (f : Option (α → Except PyExc β)) (x : α) : Exc
   | none => .error PyExc.TypeError
 
 end PyHeap
+
+namespace PyHeap
+
+/-- the items of an unpacked cell, by position (`none` past the end: `unpack?` has checked the length) -/
+def nth {κ ν : Type} (l : List (Val κ ν)) (i : Nat) : Val κ ν := l.getD i .none
+
+/-- `a, b, … = r` (n targets): `TypeError` when `r` is not a list, `ValueError` when its length is not `n` -/
+def Heap.unpack? {κ ν : Type} (h : Heap κ ν) (r : Val κ ν) (n : Nat) : Except PyExc (List (Val κ ν)) :=
+  match r with
+  | .ref a => if (h.cell a).length = n then .ok (h.cell a) else .error PyExc.ValueError
+  | _ => .error PyExc.TypeError
+
+/-- the operations of an attribute the class treats as an ABSTRACT BACKEND (spec `backend`): a container of
+    references whose own code is not translated (`heapq` on a list, `BList` + `bisect.insort`).  `push` / `pop` may read
+    the store (they compare entries).  An instance is a parameter of the generated definitions; the tie theorems state
+    what they need of it. -/
+class Backend (κ ν : outParam Type) (β : Type) where
+  /-- `if backend:` / `while backend:` -/
+  truthy : β → Bool
+  /-- `backend[0]` (`IndexError` when empty) -/
+  front : β → Except PyExc (Val κ ν)
+  /-- `self._push_entry(backend, entry)` -/
+  push : Heap κ ν → β → Val κ ν → Except PyExc β
+  /-- `self._pop_entry(backend)`: (the entry, the backend afterwards) -/
+  pop : Heap κ ν → β → Except PyExc (Val κ ν × β)
+
+end PyHeap
